@@ -667,7 +667,13 @@ def render_module(prog, mod, twin=False, order=None, skip=()):
             parts.append("%s = None\n\n" % nd["name"])
             continue
         parts.append(render_def(prog, i, skip) + "\n")
+        for al in prog["aliases"]:
+            # a module-level modifier clone made right below the definition of its function (before whatever follows it)
+            if al.get("early") and al["mod"] == mod and al["target"] == i:
+                parts.append("%s = %s.force_local()\n\n" % (al["name"], nd["name"]))
     for al in prog["aliases"]:
+        if al.get("early"):
+            continue
         if al["mod"] == mod and prog["nodes"][al["target"]]["name"] not in skip:
             if al.get("pclone") is not None:  # a module-level modifier clone of a memento function that binds its argument
                 parts.append("%s = %s.partial(%d)\n" % (al["name"], prog["nodes"][al["target"]]["name"], al["pclone"]))
